@@ -36,10 +36,13 @@ RULE = ("stream cases = (protocol variant v1|v2 plain|v2 encrypted) x channels{1
         "stream, real send_audio and teardown, reset() in between as the code does), with retransmit requests during "
         "earlier and later streams, also with the same start sequence number twice. non-trivial = the stream has a "
         "short last data packet, or wraps the sequence number, or compensated at least once, or a request that "
-        "crosses the wrap / the backlog edge, or a fifo script with an eviction or a raise, or a session of >= 2 streams; plus one stream of more than 2^16 packets (a full circle of the sequence space; "
+        "crosses the wrap / the backlog edge, or a fifo script with an eviction or a raise, or a session of >= 2 streams, or a read that came back short before the end of the source; sources with short reads at "
+        "arbitrary points: a read-size schedule on the scripted source, the real BufferedIOBaseSource (buffering task with "
+        "scripted executor turns and a late reader; and opened from an io.BytesIO WAV through real miniaudio) in front of "
+        "the real _stream_data, oracle = every delivered frame exactly once and in order, zero padding allowed anywhere; plus one stream of more than 2^16 packets (a full circle of the sequence space; "
         "thorough: a second, all-silence one that is also run on the model); distinct = canonical case")
 ASSUMPTIONS = [
-    "AudioSource.readframes(n) returns the next n*frame_size bytes of the source, fewer at the end, b'' when exhausted",
+    "AudioSource.readframes(n) returns the next bytes of the source in order: at most n*frame_size, possibly fewer at any point (the code zero-pads every short non-empty read to a packet), b'' when exhausted",
     "the stream is not stopped (stop()) and the audio transport is not closing while it runs",
     "timestamps stay below 2^32 (streams shorter than ~27 h); frame size > 0",
 ]
@@ -122,7 +125,7 @@ class Rtsp:
         self.connection = None
 
 
-def make_source(data, frame_size, clock):
+def make_source(data, frame_size, clock, schedule=None):
     try:
         from pyatv.protocols.raop.audio_source import AudioSource as Base
     except Exception:  # changed code: still drive the loop
@@ -132,16 +135,23 @@ def make_source(data, frame_size, clock):
         def __init__(self):
             self.pos = 0
             self.reads = []
+            self.chunks = []
+            self.schedule = list(schedule or [])
 
         async def close(self):
             pass
 
         async def readframes(self, nframes):
             clock.lag()
-            n = nframes * frame_size
+            want = nframes
+            if self.schedule:                      # a read that comes back short before the end
+                want = max(1, min(nframes, self.schedule.pop(0)))
+            n = want * frame_size
             chunk = data[self.pos:self.pos + n]
             self.pos += len(chunk)
             self.reads.append(nframes)
+            if chunk:
+                self.chunks.append(chunk)
             return chunk
 
         async def get_metadata(self):
@@ -164,6 +174,121 @@ def make_source(data, frame_size, clock):
             return 0
 
     return ScriptedSource()
+
+
+class ExecLoop:
+    """`BufferedIOBaseSource.loop`: run_in_executor runs the blocking read after a scripted
+    number of event-loop turns, so that readframes() can run while a read is in flight."""
+
+    def __init__(self, seed):
+        self.rnd = random.Random(seed)
+
+    def run_in_executor(self, _executor, fn, *args):
+        turns = self.rnd.choice((0, 1, 1, 2, 3, 5))
+
+        async def job():
+            for _ in range(turns):
+                await asyncio.sleep(0)
+            return fn(*args)
+
+        return asyncio.ensure_future(job())
+
+
+class StallingReader:
+    """The decoded PCM stream a BufferedIOBaseSource reads from (stands in for
+    miniaudio.WavFileReadStream after its header was skipped): read(n) returns up to n bytes,
+    now and then fewer (a producer that is late), always whole 16-bit frames."""
+
+    def __init__(self, pcm, seed, align):
+        self.pcm, self.pos, self.rnd, self.align = pcm, 0, random.Random(seed), align
+
+    def read(self, n):
+        if self.rnd.random() < 0.25:
+            n = max(self.align, (self.rnd.randrange(1, n + 1) // self.align) * self.align)
+        chunk = self.pcm[self.pos:self.pos + n]
+        self.pos += len(chunk)
+        return chunk
+
+
+async def make_buffered_source(case, pcm, clock):
+    """The real BufferedIOBaseSource (its buffering task, its readframes): over a scripted reader
+    with scripted executor turns ("buffered"), or opened the way stream_file opens an
+    io.BytesIO holding a WAV file — real miniaudio decoding, real executor threads ("buffered-open")."""
+    from pyatv.protocols.raop.audio_source import BufferedIOBaseSource
+    from pyatv.support.metadata import EMPTY_METADATA
+
+    if case["source"] == "buffered-open":
+        import io
+        import wave
+        buf = io.BytesIO()
+        w = wave.open(buf, "wb")
+        w.setnchannels(case["channels"])
+        w.setsampwidth(case["bps"])
+        w.setframerate(case.get("sample_rate", 44100))
+        w.writeframes(pcm)
+        w.close()
+        buf.seek(0)
+        src = await BufferedIOBaseSource.open(buf, case.get("sample_rate", 44100), case["channels"], case["bps"])
+    else:
+        reader = StallingReader(pcm, case["srcseed"] ^ 0x5A5A, case["channels"] * case["bps"])
+        src = BufferedIOBaseSource(reader, None, EMPTY_METADATA, case.get("sample_rate", 44100), case["channels"], case["bps"])
+        src.loop = ExecLoop(case["lagseed"])
+    src.chunks = []
+    real = src.readframes
+
+    async def readframes(nframes):
+        clock.lag()
+        chunk = await real(nframes)
+        if chunk:
+            src.chunks.append(bytes(chunk))
+        return chunk
+
+    src.readframes = readframes
+    return src
+
+
+def expected_source(case):
+    """The frames the source has to deliver: for the scripted source its bytes; for the real
+    BufferedIOBaseSource the PCM it was given, as 16-bit samples in the byte order it emits."""
+    data = source_bytes(case)
+    if str(case.get("source", "")).startswith("buffered"):
+        import array
+        import sys as _sys
+        a = array.array("h", data)
+        if _sys.byteorder == "little":
+            a.byteswap()
+        return a.tobytes()
+    return data
+
+
+def carried_with_padding(stream, src):
+    """Is `src` carried exactly once and in order by `stream` when zero bytes (padding) may have
+    been inserted anywhere?  Exact test: same non-zero bytes in the same order, and every run of
+    zeros of the source (before, between) is at least as long in the stream.  Returns the number of
+    zero bytes that follow the source in the stream, or None."""
+    def runs(b):
+        out, z = [], 0
+        for x in b:
+            if x:
+                out.append((z, x))
+                z = 0
+            else:
+                z += 1
+        return out, z
+    rs, tail_s = runs(stream)
+    rx, tail_x = runs(src)
+    if len(rs) != len(rx):
+        return None
+    for (zs, bs), (zx, bx) in zip(rs, rx):
+        if bs != bx or zs < zx:
+            return None
+    if tail_s < tail_x:
+        return None
+    return tail_s - tail_x
+
+
+def scheduled(case):
+    return bool(case.get("reads")) or str(case.get("source", "")).startswith("buffered")
 
 
 def source_bytes(case):
@@ -215,7 +340,10 @@ def execute(case):
         audio, ctrl = Transport(), Transport()
         control = sc.ControlClient(context, client._packet_backlog)
         control.connection_made(ctrl)
-        source = make_source(data, frame_size, clock)
+        if str(case.get("source", "")).startswith("buffered"):
+            source = await make_buffered_source(case, data, clock)
+        else:
+            source = make_source(data, frame_size, clock, case.get("reads"))
 
         requests = {}
         for k, first, count in case.get("requests", []):
@@ -263,6 +391,11 @@ def execute(case):
             obs["datagrams"] = audio.out
             obs["ctx"] = (context.rtpseq, context.head_ts, context.padding_sent)
             obs["keys"] = list(client._packet_backlog)
+            obs["chunks"] = list(getattr(source, "chunks", []))
+            try:
+                await source.close()
+            except Exception:
+                pass
         fire(-1)                              # after the stream ended (k = -1: final backlog)
 
     try:
@@ -305,7 +438,7 @@ def oracle_stream(case, obs, opened):
     problems = []
     fs = case["channels"] * case["bps"]
     ps = FPP * fs
-    src = source_bytes(case)
+    src = expected_source(case)
     if obs["error"]:
         return [("error", "streaming raised " + obs["error"])]
     headers = [h for h, _p, _x in opened]
@@ -315,7 +448,20 @@ def oracle_stream(case, obs, opened):
             problems.append(("payload", x))
     stream = b"".join(payloads)
     ndata = -(-len(src) // ps)
-    if stream[:len(src)] != src:
+    if scheduled(case):
+        # the source's reads come back short before its end: the code zero-pads such a read to a
+        # packet and goes on, so padding may sit anywhere — every frame still exactly once, in order
+        tail = carried_with_padding(stream, src)
+        if tail is None:
+            problems.append(("payload-short-reads", "the packets do not carry the frames the source delivered exactly once "
+                             "and in order (zero padding allowed anywhere): %d source bytes, %d payload bytes, %d of them non-zero vs %d"
+                             % (len(src), len(stream), sum(1 for x in stream if x), sum(1 for x in src if x))))
+        elif any(len(p) != ps for p in payloads):
+            problems.append(("payload", "a packet does not hold %d frames" % FPP))
+        elif tail < obs["latency"] * fs:
+            problems.append(("padding", "silence after the source (%d bytes) does not cover the latency (%d frames)"
+                             % (tail, obs["latency"])))
+    elif stream[:len(src)] != src:
         problems.append(("payload", "the packets do not carry the source's frames exactly once and in order"))
     elif any(stream[len(src):]):
         problems.append(("payload", "bytes after the source are not zero padding"))
@@ -380,6 +526,13 @@ def oracle_retransmit(case, obs):
 
 def model_lines(case, obs):
     fs = case["channels"] * case["bps"]
+    if scheduled(case):
+        lines = ["streamc %d %d %d %d %d %s %s" % (fs, obs["latency"], obs["start_ts"], case["ssrc"], case["s0"],
+                                                 ",".join(map(str, obs["comp"])) or "-",
+                                                 ";".join(c.hex() for c in obs.get("chunks", [])) or "-")]
+        for r in obs["responses"]:
+            lines.append(("ctrl %s" % r["req"]) if r["k"] < 0 else ("ctrlat %d %s" % (r["k"], r["req"])))
+        return lines
     lines = ["stream %d %d %d %d %d %s %s" % (fs, obs["latency"], obs["start_ts"], case["ssrc"], case["s0"],
                                             ",".join(map(str, obs["comp"])) or "-", hx(source_bytes(case)))]
     if obs["responses"]:
@@ -939,6 +1092,11 @@ def run_cases(ctx, cases):
         compensated = any(obs["comp"])
         nontrivial = bool(nbytes % (FPP * fs)) or wraps or compensated
         ctx.note("variant:" + case["variant"])
+        if scheduled(case):
+            short = sum(1 for c in obs.get("chunks", [])[:-1] if len(c) < FPP * fs)
+            ctx.note("source:" + (case.get("source") or "read-schedule"))
+            ctx.note("short reads before the end", short)
+            nontrivial = nontrivial or short > 0
         ctx.note("frame_size:%d" % fs)
         ctx.note("remainder:" + ("0" if case["frames"] % FPP == 0 else "nonzero"))
         ctx.note("latency:" + ("reset" if case["latency"] is None else "small"))
@@ -966,6 +1124,36 @@ def run_cases(ctx, cases):
         for r in obs["responses"]:
             if r["first"] + r["count"] > MOD and r["out"]:
                 ctx.note("requests:across-wrap")
+
+
+def gen_short_read_cases(ctx):
+    """Sources whose reads are short at arbitrary points, not only at the end: (a) the scripted
+    source with a read-size schedule, (b) the real BufferedIOBaseSource (buffering task, scripted
+    executor turns so that readframes runs while a read is in flight, a reader that is sometimes
+    late) in front of the real _stream_data."""
+    rng = ctx.rng.fork("short-reads")
+    formats = [(c, b) for c in (1, 2) for b in (1, 2, 3, 4)]
+    cases = []
+    for i in range(ctx.scale(40, 300)):
+        ch, b = rng.choice(formats)
+        nreads = rng.randrange(1, 9)
+        reads = [rng.choice((1, 100, 351, FPP, FPP, rng.randrange(1, FPP + 1))) for _ in range(nreads)]
+        if all(r == FPP for r in reads):
+            reads[rng.randrange(nreads)] = rng.randrange(1, FPP)
+        cases.append(base_case(rng, variant=("v1", "v2", "v2c")[i % 3], channels=ch, bps=b,
+                               frames=rng.randrange(0, 6 * FPP), s0=rng.choice((0, 65534, 65535, rng.randrange(MOD))),
+                               latency=rng.choice((1, 352, 353, 1000)), lagp=rng.choice((0.0, 0.3)), reads=reads))
+    for i in range(ctx.scale(16, 120)):
+        ch = rng.choice((1, 2))
+        frames = rng.choice((0, 1, 351, 352, 353, 3 * FPP, 10 * FPP + 123, rng.randrange(0, 40 * FPP)))
+        cases.append(base_case(rng, variant=("v1", "v2c")[i % 2], channels=ch, bps=2, frames=frames, source="buffered",
+                               s0=rng.choice((65535, rng.randrange(MOD))), latency=rng.choice((352, 1000)),
+                               lagp=rng.choice((0.0, 0.3))))
+    for i in range(ctx.scale(3, 12)):              # stream_file(io.BytesIO(wav)): real decoder, real executor
+        cases.append(base_case(rng, variant="v1", channels=rng.choice((1, 2)), bps=2, source="buffered-open",
+                               frames=rng.choice((7 * FPP + 5, 3 * FPP, rng.randrange(1, 30 * FPP))),
+                               s0=rng.randrange(MOD), latency=352, lagp=0.0))
+    return cases
 
 
 def gen_full_circle_cases(ctx):
@@ -1010,6 +1198,7 @@ def run(ctx, only=None, only_sessions=None):
     run_sessions(ctx, gen_sessions(ctx))
     run_cases(ctx, gen_retransmit_cases(ctx))
     run_cases(ctx, gen_stream_cases(ctx))
+    run_cases(ctx, gen_short_read_cases(ctx))
     run_cases(ctx, gen_full_circle_cases(ctx))
 
 
